@@ -108,6 +108,19 @@ fn adjust_text<T: Clone>(
         .collect()
 }
 
+fn adjust_cstrings(
+    map: &HashMap<String, Vec<usize>>,
+    relocate: impl Fn(usize) -> Option<usize>,
+) -> HashMap<String, Vec<usize>> {
+    map.iter()
+        .map(|(text, addresses)| {
+            let kept: Vec<usize> = addresses.iter().filter_map(|addr| relocate(*addr)).collect();
+            (text.clone(), kept)
+        })
+        .filter(|(_, addresses)| !addresses.is_empty())
+        .collect()
+}
+
 fn adjust_labels<T: Clone>(
     map: &HashMap<usize, T>,
     address: usize,
@@ -623,9 +636,13 @@ impl BinArchive {
         let new_text = adjust_text(&self.text, address, amount_in_bytes, false);
         let new_labels = adjust_labels(&self.labels, address, amount_in_bytes, false, ge);
         let new_pointers = adjust_pointers(&self.pointers, address, amount_in_bytes, false, ge);
+        let new_cstrings = adjust_cstrings(&self.cstrings, |addr| {
+            Some(adjust_pointer(addr, address, amount_in_bytes, false))
+        });
         self.text = new_text;
         self.labels = new_labels;
         self.pointers = new_pointers;
+        self.cstrings = new_cstrings;
         Ok(())
     }
 
@@ -641,9 +658,17 @@ impl BinArchive {
         let new_text = adjust_text(&filtered_text, address, amount_in_bytes, true);
         let new_labels = adjust_labels(&filtered_labels, address, amount_in_bytes, true, ge);
         let new_pointers = adjust_pointers(&filtered_pointers, address, amount_in_bytes, true, ge);
+        let new_cstrings = adjust_cstrings(&self.cstrings, |addr| {
+            if (address..(address + amount_in_bytes)).contains(&addr) {
+                None
+            } else {
+                Some(adjust_pointer(addr, address, amount_in_bytes, true))
+            }
+        });
         self.text = new_text;
         self.labels = new_labels;
         self.pointers = new_pointers;
+        self.cstrings = new_cstrings;
         Ok(())
     }
 
@@ -658,6 +683,7 @@ impl BinArchive {
             self.labels.remove(&i);
             self.pointers.remove(&i);
         }
+        self.cstrings = adjust_cstrings(&self.cstrings, |addr| Some(addr).filter(|a| *a < address));
         Ok(())
     }
 
